@@ -327,6 +327,21 @@ def run(tier, seed, model_ok, translator, search=False):
         if model_ok:
             ops.append(rc.model_op("make_table", grid, "strict"))
             pend.append(("make_table", case, impl))
+        # the same block inside a stream, after a defective table, read with a collecting tracker:
+        # it is typed by its own unit rows and cells only — nothing carries over from an earlier block
+        from harness.props.c03 import ref_kind
+        if i % 3 == 0 and ref_kind(grid[0]) == "table" and all(ref_kind(list(r)) == "plain" for r in grid[1:]):
+            from harness import blocks_common as bc
+            bad = [["**bad"], ["all"], ["a", "b"], ["-", "onoff"], ["oops", "maybe"], ["1"], []]
+            res = bc.impl_parse_blocks(bad + [list(r) for r in grid], to="pdtable", tracker="collecting")
+            tabs = [b["val"]["table"] for b in res["blocks"] if b["ty"] == "TABLE"]
+            want = {k: v for k, v in impl["ok"].items() if k != "fixer"}
+            if res["ending"] != "exhausted" or not tabs or tabs[-1] != want:
+                out.fail("a well-formed table is typed differently (or rejected) when it follows a defective "
+                         "block in the same stream", case, {"ending": res["ending"], "issues": res["issues"],
+                                                            "last_table": tabs[-1] if tabs else None}, want,
+                         key="stream_context")
+                continue
         # missing values only from markers / empty native cells / float() itself
         check_missing_sources(grid, ref, impl["ok"], out, case)
         # locality: change one cell outside column j (keeping its own column well formed)
